@@ -320,7 +320,7 @@ fn curved(rng: &mut Rng) {
 }
 
 fn rejections(rng: &mut Rng) {
-    let which = rng.below(6);
+    let which = rng.below(9);
     let (mesh, name): (Mesh, &str) = match which {
         0 => (Mesh::create_box(rng.range(1.0, 3.0), rng.range(1.0, 3.0), rng.range(1.0, 3.0), false), "closed box (no boundary)"),
         1 => (gen::sphere(1.5, rng.int(4, 9) as usize, rng.int(3, 6) as usize), "closed sphere (no boundary)"),
@@ -354,6 +354,37 @@ fn rejections(rng: &mut Rng) {
             let mut f = d.faces().to_vec();
             f.extend(b.faces().iter().map(|t| [t[0] + off, t[1] + off, t[2] + off]));
             (Mesh::new(v, f, false), "disk plus a separate closed component")
+        }
+        5 => {
+            // a disk and a separate closed TORUS: one boundary loop and Euler characteristic 1 + 0 = 1, two pieces
+            let d = gen::height_field(rng, 4, 4, 0.2);
+            let t = gen::torus(3.0, 1.0, rng.int(4, 7) as usize, rng.int(3, 6) as usize);
+            let off = d.vertices().len() as u32;
+            let mut v = d.vertices().to_vec();
+            v.extend(t.vertices().iter().map(|p| p + Vector3::new(30.0, 0.0, 0.0)));
+            let mut f = d.faces().to_vec();
+            f.extend(t.faces().iter().map(|t| [t[0] + off, t[1] + off, t[2] + off]));
+            (Mesh::new(v, f, false), "disk plus a separate closed torus (one loop, Euler characteristic 1, two pieces)")
+        }
+        6 => {
+            // punctured torus (-1) plus a closed tetrahedron (+2): one boundary loop, Euler characteristic 1
+            let t = gen::torus(3.0, 1.0, rng.int(5, 8) as usize, rng.int(4, 6) as usize);
+            let mut f = t.faces().to_vec();
+            f.remove(rng.below(f.len()));
+            let off = t.vertices().len() as u32;
+            let mut v = t.vertices().to_vec();
+            v.extend([Point3::new(40.0, 0.0, 0.0), Point3::new(41.0, 0.0, 0.0), Point3::new(40.0, 1.0, 0.0), Point3::new(40.0, 0.0, 1.0)]);
+            f.extend([[off, off + 2, off + 1], [off, off + 1, off + 3], [off + 1, off + 2, off + 3], [off + 2, off, off + 3]]);
+            (Mesh::new(v, f, false), "punctured torus plus a closed tetrahedron (one loop, Euler characteristic 1, two pieces)")
+        }
+        7 => {
+            // two triangles (or two small disks) touching at one vertex only: Euler characteristic 1
+            let k = rng.int(1, 3) as u32; // position of the shared vertex in the numbering
+            let mut v: Vec<Point3> = vec![Point3::new(0.0, 0.0, 0.0), Point3::new(1.0, 0.2, 0.0), Point3::new(0.2, 1.0, 0.0), Point3::new(-1.0, -0.3, 0.1), Point3::new(-0.2, -1.0, 0.0)];
+            v.swap(0, k as usize);
+            let id = |i: u32| if i == 0 { k } else if i == k { 0 } else { i };
+            let f = vec![[id(0), id(1), id(2)], [id(0), id(3), id(4)]];
+            (Mesh::new(v, f, false), "two triangles sharing only a vertex (Euler characteristic 1)")
         }
         _ => {
             // non-manifold: a third face on an interior edge
